@@ -49,12 +49,25 @@ func checkClearsign(c ClearsignCase, r *Recorder) error {
 	if err != nil && len(c.Keyring) > 0 {
 		return errf("HARNESS: keyring unreadable: %v", err)
 	}
-	if kr == nil {
+	armored := bytes.HasPrefix(c.Input, []byte(pgpPrefix))
+	if len(kr) == 0 {
+		// an empty keyring has two spellings in Go - a nil slice (var kr openpgp.EntityList, or
+		// appending zero keys) and an empty non-nil one; both are "a keyring with no keys in it"
+		var nilSlice openpgp.EntityList
+		if err := checkClearsignWith(c, nilSlice, armored, "nil-slice keyring"); err != nil {
+			return err
+		}
 		kr = openpgp.EntityList{}
 	}
-	armored := bytes.HasPrefix(c.Input, []byte(pgpPrefix))
+	return checkClearsignWith(c, kr, armored, "")
+}
+
+func checkClearsignWith(c ClearsignCase, kr openpgp.EntityList, armored bool, krNote string) error {
 
 	judge := func(how string, paras []control.Paragraph, signer *openpgp.Entity, rerr error) error {
+		if krNote != "" {
+			how += " (" + krNote + ")"
+		}
 		if rerr != nil {
 			if c.MustSucceed {
 				return errf("%s: correctly signed document with the signer in the keyring was rejected: %v", how, rerr)
